@@ -115,6 +115,31 @@ static void Cell_New(var self, var args) {
   if (s >= 0) S[s].constructed = 1;
 }
 
+/* temps=K: the destructor of every object allocates K collector-managed temporaries and deletes them again before it returns
+** (a destructor that logs, formats, unregisters ...).  The temporaries live in the top NTEMP spare slots, handed out as a
+** stack because destructors nest (an owner deleting what it owns). */
+#define NTEMP 16
+static int dtor_temps, temp_sp;
+static void dtor_temporaries(int s) {
+  if (!dtor_temps || stopped || s >= NSLOT - NTEMP || !gc) return;
+  int mine[4], n = 0, saved = alloc_at;
+  for (int k = 0; k < dtor_temps && temp_sp < NTEMP; k++) {
+    int t = NSLOT - 1 - temp_sp++;
+    memset(&S[t], 0, sizeof S[t]); S[t].kind = K_STD; S[t].child = -1;
+    alloc_at = t;
+    new(Cell);
+    mine[n++] = t;
+  }
+  alloc_at = saved;
+  while (n > 0) {
+    int t = mine[--n];
+    if (S[t].fin == 0) { S[t].deleted = 1; del(P(t)); }
+    if (S[t].fin != 1 || S[t].dealloc != 1) lfail("temporary made inside the destructor of #%d was finalised %d and released %d times when it was deleted", s, S[t].fin, S[t].dealloc);
+    memset(&S[t], 0, sizeof S[t]); S[t].child = -1;
+    temp_sp--;
+  }
+}
+
 static void Cell_Del(var self) {
   struct Cell* c = self;
   int s = slot_of(self);
@@ -123,6 +148,7 @@ static void Cell_Del(var self) {
   if (S[s].fin > 1) { lfail("object #%d finalised twice", s); return; }
   if (S[s].kind == K_NONE) { lfail("destructor on free slot #%d", s); return; }
   if (c->canary != CANARY) lfail("object #%d corrupted before finalisation", s);
+  dtor_temporaries(s);
   if (c->owner && c->child) {
     int cs = slot_of(c->child);
     if (cs >= 0) S[cs].deleted = 1;
@@ -145,6 +171,7 @@ var Cell = Cello(Cell,
 static var* stack_bottom;   /* address of a local in main: the collector's stack bottom */
 
 static void reset(void) {
+  temp_sp = 0;
   memset(S, 0, sizeof S);
   for (int s = 0; s < NSLOT; s++) S[s].child = -1;
   ledger_err[0] = 0; stopped = 0; alloc_at = -1; exec_bad = 0; owner_del_ignored = 0;
@@ -443,7 +470,7 @@ static int __attribute__((noinline)) apply1(int op) {
     lastkind = "fill-to-threshold";
     int snap[NSLOT]; compute_reachable(-1); memcpy(snap, reachable, sizeof snap);
     int used = 0, triggered = 0;
-    for (int k = 0; k < NSPARE && !triggered; k++) {
+    for (int k = 0; k < NSPARE - NTEMP && !triggered; k++) {
       int s = MAXA + k;
       if (S[s].kind != K_NONE) continue;
       size_t before = gc->nitems;
@@ -728,7 +755,7 @@ static var exit_body(var args) {
   volatile var kept = NULL;
   int next = 0;     /* arena slots are handed out in order */
   for (int i = 0; i < exit_len; i++) {
-    if (next >= NSLOT - 2 && exit_prog[i] != 4) continue;   /* arena exhausted: the rest of the program allocates nothing */
+    if (next >= NSLOT - NTEMP - 2 && exit_prog[i] != 4) continue;   /* arena exhausted: the rest of the program allocates nothing */
     switch (exit_prog[i]) {
     case 0: alloc_at = next; S[next].kind = K_STD; S[next].child = -1; new(Cell); next++; break;                 /* garbage at once */
     case 1: alloc_at = next; S[next].kind = K_STD; S[next].child = -1; kept = new(Cell); next++; break;          /* held in a local */
@@ -737,7 +764,7 @@ static var exit_body(var args) {
               alloc_at = next; S[next].kind = K_STD; S[next].child = -1; var c = new(Cell); int sc = next++;
               o->child = c; o->owner = 1; S[so].child = sc; S[so].owner = 1; break; }
     case 4: if (kept) { int s = slot_of((var)kept); if (s >= 0 && !S[s].fin) { S[s].deleted = 1; del((var)kept); } kept = NULL; } break;
-    case 5: for (int k = 0; k < 30 && next < NSLOT - 2; k++) { alloc_at = next; S[next].kind = K_STD; S[next].child = -1; new(Cell); next++; } break;
+    case 5: for (int k = 0; k < 30 && next < NSLOT - NTEMP - 2; k++) { alloc_at = next; S[next].kind = K_STD; S[next].child = -1; new(Cell); next++; } break;
     }
     alloc_at = -1;
   }
@@ -849,6 +876,7 @@ int main(int argc, char** argv) {
   A = (int)vf_param_i("naddr", 5);
   if (A > MAXA) A = MAXA;
   propC06 = vf_param_is("prop", "C06", "C17");
+  dtor_temps = (int)vf_param_i("temps", 0); if (dtor_temps > 4) dtor_temps = 4;
 
   size_t need = 8L * MODW * (20 + NSPARE + 4) + 8L * MODW + 4096;
   char* region = mmap(NULL, need, PROT_READ | PROT_WRITE, MAP_PRIVATE | MAP_ANONYMOUS | MAP_NORESERVE, -1, 0);
